@@ -43,7 +43,7 @@ use std::task::{Context, Poll};
 
 pub const META: Meta = Meta {
     level: "model_checking",
-    rule: "BFS over all histories (depth 8 quick / 10 thorough) of {send_request (<=3), outstanding dial fails, connection c0/c1 established inbound/outbound (once each), connection closed, handler outcome for an outbound request (response/timeout/unsupported/stream failure), inbound request (<=2) reported, worker time-out overtaking the report, application responds / drops the channel, handler outcome for an inbound request (sent/omitted/time-out/stream failure)} against the real request_response::Behaviour; every state additionally re-executed from scratch with the drain suffix (fail dials, close connections). States deduplicated on the full model state (request tables with ids, stages and outcome counts, connection and dial state) + is_connected/is_pending_* getters. Non-trivial = states with at least one request issued or delivered.",
+    rule: "BFS over all histories (depth 8 quick / 12 thorough) of {send_request (<=3), outstanding dial fails, connection c0/c1 established inbound/outbound (once each), connection closed, handler outcome for an outbound request (response/timeout/unsupported/stream failure), inbound request (<=2) reported, worker time-out overtaking the report, application responds / drops the channel, handler outcome for an inbound request (sent/omitted/time-out/stream failure)} against the real request_response::Behaviour; every state additionally re-executed from scratch with the drain suffix (fail dials, close connections). States deduplicated on the full model state (request tables with ids, stages and outcome counts, connection and dial state) + is_connected/is_pending_* getters. Non-trivial = states with at least one request issued or delivered.",
     explanation: "Every transition executes the real Behaviour (send_request / send_response / on_swarm_event / on_connection_handler_event / handle_established_* / poll); safety oracle in every state, completeness oracle after the drain suffix of every state; un-deduplicated DFS companion to a smaller depth.",
     assumptions: &["handlers are modelled at event level from handler.rs (one outcome per request unless the connection closes)", "the Swarm's handling of ToSwarm::Dial is modelled (DisconnectedAndNotDialing)", "one remote peer, two connections, <= 3 outbound and <= 2 inbound requests", "connections that are denied by another behaviour after handle_established_* are not part of the alphabet", "inbound request ids are allocated by the harness (in production: a shared atomic counter)"],
 };
@@ -575,7 +575,7 @@ pub fn run(ctx: &Ctx) -> Outcome {
         }
         return out;
     }
-    let depth = ctx.tier.pick(8, 10);
+    let depth = ctx.tier.pick(8, 12);
     let (st, v) = bfs::bfs_replay(Sys::new, depth, ctx.tier.pick(300_000, 3_000_000));
     bfs::record(&mut out, &cfg, &st, &v);
     let ddepth = ctx.tier.pick(4, 5);
